@@ -41,7 +41,7 @@ TIERS = {
     "thorough": {"shards": 16, "cases": 150000, "timeout": 3000},
 }
 FLOORS = {
-    "quick": {"counts": {"writer_stream_comparisons": 15000, "flush_checks": 2000, "teardown_checks": 1500,
+    "quick": {"counts": {"raw_statements_checked_against_their_own_bytes": 1500, "line_ending_reconfigured_in_place": 700, "writer_stream_comparisons": 15000, "flush_checks": 2000, "teardown_checks": 1500,
                          "payloads_written": 10000, "disk_readbacks": 1000,
                          "teardown_by_exception_in_with_block": 200}, "keys": 100},
     "thorough": {"counts": {"writer_stream_comparisons": 700000}, "keys": 150},
@@ -182,6 +182,13 @@ def fd_open_on(path):
     return n
 
 
+RAW = ["G4 P1", "M400", "G1 X1 Y2 F600", "M117 capa"]
+
+
+class _Stop(Exception):
+    pass
+
+
 def run_case(ctx, col, case):
     rng = ctx.rng(case)
     tmp = tempfile.mkdtemp(prefix="c14_")
@@ -201,6 +208,7 @@ def _run(ctx, col, case, rng, tmp):
         # let the builder create its own path-based writer from the configuration (output=...)
         cfg["output"] = os.path.join(tmp, "cfg", "configured.gcode")
     g = GCodeBuilder(line_endings=le.encode("unicode-escape").decode(), **cfg)
+    cur = {"le": le}
     if from_config:
         w0 = W("custom", tmp, 99)
         w0.kind, w0.path, w0.writer = "path", cfg["output"], g.get_writer(0)
@@ -277,6 +285,25 @@ def _run(ctx, col, case, rng, tmp):
                 g.tool_off()
             else:
                 g.tool_on("cw", 1000)
+        elif which == "raw":
+            # a statement handed to write() as text: the bytes every output receives are known without
+            # looking at any output -- the statement followed by the line ending in force, in UTF-8
+            text = rng.choice(RAW)
+            before = len(ref.payloads)
+            g.write(text)
+            got = b"".join(ref.payloads[before:])
+            want = (text + cur["le"]).encode("utf-8")
+            col.count("raw_statements_checked_against_their_own_bytes")
+            if got != want:
+                account()
+                fail("written-statement-delivered-as-other-bytes", statement=text, delivered=got.decode("utf-8", "replace"),
+                     expected=want.decode("utf-8"), mech="c14:raw-bytes-differ")
+                raise _Stop()
+        elif which == "ending":
+            # the line ending re-configured in place through the documented accessor
+            cur["le"] = rng.choice(["\n", "\r\n"])
+            g.format.set_line_endings(cur["le"].encode("unicode-escape").decode())
+            col.count("line_ending_reconfigured_in_place")
         else:
             g.set_distance_mode(rng.choice(["absolute", "relative"]))
 
@@ -295,9 +322,11 @@ def _run(ctx, col, case, rng, tmp):
             log.append(["remove_writer", i])
             col.key(kinds, "remove")
         elif r < 0.80:
-            which = rng.choice(["move", "comment", "tool", "mode", "rapid"])
+            which = rng.choice(["move", "comment", "tool", "mode", "rapid", "raw", "raw", "ending"])
             try:
                 emit_one(which)
+            except _Stop:
+                return
             except Exception as e:     # every registered writer is healthy: delivery must not fail
                 account()
                 fail("emitting-call-raised", call=which, error=repr(e), cause=repr(e.__cause__),
